@@ -15,7 +15,6 @@ package websocket
 //@   poolFrame(f) && frameWF(*f) && ((s.role == RoleClient) == (((*f)[1] & 128) != 0))
 
 //@ pred qInv(s *Stream) =
-//@   len(s.pendingFrames) <= 1<<20 &&
 //@   (forall j :: 0 <= j && j < len(s.pendingFrames) ==> s.pendingFrames[j] != nil)
 
 //@ func ext:sync.(*Pool).Get
@@ -30,7 +29,116 @@ package websocket
 //@ func (*Stream).AcquireFrame
 //@   prop C16
 //@   assume-typeassert Frame
-//@   assume def f: poolFrame(f)
-//@   ensures [frame] poolFrame(result)
-//@   ensures [client-mask] s.role == RoleClient ==> (*result)[1] & 128 != 0
-//@   ensures [other-bits] (*result)[0] == old((*result)[0]) && (*result)[1] & 127 == old((*result)[1] & 127)
+//@   // sync.Pool hands out a frame nobody else references: its storage aliases nothing the caller holds
+//@   assume def f: poolFrame(f) && (*f)[0] == 0 && (*f)[1] == 0 && fresh(*f)
+//@   ensures [frame] poolFrame(result) && (*result)[0] == 0 && fresh(*result)
+//@   ensures [frame-only] unchanged_except(*result)
+//@   ensures [client-mask] (*result)[1] == ((s.role == RoleClient) ? 128 : 0)
+
+//@ func (*Stream).releaseFrame
+//@   prop C16
+//@   requires poolFrame(f)
+//@   // back to the pool with a zeroed header, whatever it carried
+//@   ensures [zeroed] poolFrame(f) && (*f)[0] == 0 && (*f)[1] == 0
+//@   modifies mem(*f)
+
+// verifyFrame: RSV bits must be zero; a client accepts only unmasked frames, a server only masked ones.
+//@ func (*Stream).verifyFrame
+//@   prop C15
+//@   requires len(f) >= 2
+//@   ensures [iff] (result == nil) == (f[0] & 112 == 0 && ((s.role == RoleClient) ==> f[1] & 128 == 0) && ((s.role == RoleServer) ==> f[1] & 128 != 0))
+//@   ensures [rsv] f[0] & 112 != 0 ==> result == ErrNonZeroReservedBits
+//@   ensures [masked-from-server] f[0] & 112 == 0 && s.role == RoleClient && f[1] & 128 != 0 ==> result == ErrMaskedFramesFromServer
+//@   modifies nothing
+
+//@ func (*Stream).handleDataFrame
+//@   prop C15
+//@   requires len(f) >= 2 && frameWF(f)
+//@   // opcodes 3-7 and 11-15 are reserved
+//@   ensures [reserved] (f[0] & 15 > 2 && f[0] & 15 != 8 && f[0] & 15 != 9 && f[0] & 15 != 10) ==> result == ErrReservedOpcode
+//@   ensures [data] f[0] & 15 <= 2 && !s.validateUTF8 ==> result == nil
+//@   modifies nothing
+
+//@ func ext:unicode/utf8.Valid
+//@   trusted
+//@   modifies nothing
+
+// prepareWrite: masks the payload (client) and appends the frame at the END of the queue.
+//@ func (*Stream).prepareWrite
+//@   prop C16, C08
+//@   requires qInv(s) && poolFrame(f) && frameWF(*f) && ((s.role == RoleClient) == ((*f)[1] & 128 != 0))
+//@   let ext = (((*f)[1] & 127) == 127) ? 8 : ((((*f)[1] & 127) == 126) ? 2 : 0)
+//@   let off = 2 + ext + 4
+//@   ensures [queued] len(s.pendingFrames) == old(len(s.pendingFrames)) + 1 && s.pendingFrames[old(len(s.pendingFrames))] == f
+//@   ensures [order] forall j :: 0 <= j && j < old(len(s.pendingFrames)) ==> s.pendingFrames[j] == old(s.pendingFrames[j])
+//@   ensures [wire] wireFrame(s, f) && (*f)[0] == old((*f)[0]) && (*f)[1] == old((*f)[1]) && len(*f) == old(len(*f)) && ptr(*f) == old(ptr(*f))
+//@   // un-masking the queued payload with the key stored in front of it gives the payload handed in
+//@   ensures [unmask] s.role == RoleClient ==> (forall k :: 0 <= k && k < len(*f) - off ==>
+//@           (*f)[off + k] == old((*f)[off + k]) ^ (*f)[off - 4 + (k & 3)])
+//@   ensures [server-plain] s.role != RoleClient ==> (forall k :: 0 <= k && k < len(*f) ==> (*f)[k] == old((*f)[k]))
+//@   ensures [frame-only] unchanged_except(*f)
+//@   ensures [inv] qInv(s) && s.state == old(s.state)
+
+// Close codes travel big-endian in the first two payload bytes.
+//@ func EncodeCloseCode
+//@   prop C08
+//@   ensures [two-bytes] len(result) == 2 && fresh(result) && int(result[0])*256 + int(result[1]) == int(cc)
+//@   modifies nothing
+
+//@ func EncodeCloseFramePayload
+//@   prop C08
+//@   requires len(reason) <= 123
+//@   ensures [code-first] len(result) == 2 + len(reason) && fresh(result) && int(result[0])*256 + int(result[1]) == int(cc)
+//@   modifies nothing
+
+// prepareClose queues exactly one Close frame (FIN, opcode 8) carrying the given payload.
+//@ func (*Stream).prepareClose
+//@   prop C08, C16
+//@   requires qInv(s) && len(payload) <= 125
+//@   ensures [one-close] len(s.pendingFrames) == old(len(s.pendingFrames)) + 1 &&
+//@           (*s.pendingFrames[old(len(s.pendingFrames))])[0] == 136 &&
+//@           int((*s.pendingFrames[old(len(s.pendingFrames))])[1] & 127) == len(payload) &&
+//@           wireFrame(s, s.pendingFrames[old(len(s.pendingFrames))])
+//@   ensures [order] forall j :: 0 <= j && j < old(len(s.pendingFrames)) ==> s.pendingFrames[j] == old(s.pendingFrames[j])
+//@   ensures [inv] qInv(s) && s.state == old(s.state)
+//@   ensures [frame-only] unchanged_except(*s.pendingFrames[old(len(s.pendingFrames))])
+//@   // on the wire: payload XOR masking key for a client, payload itself for a server
+//@   ensures [payload-client] s.role == RoleClient ==> (forall k :: 0 <= k && k < len(payload) ==>
+//@           (*s.pendingFrames[old(len(s.pendingFrames))])[6 + k] == old(payload[k]) ^ (*s.pendingFrames[old(len(s.pendingFrames))])[2 + (k & 3)])
+//@   ensures [payload-server] s.role != RoleClient ==> (forall k :: 0 <= k && k < len(payload) ==>
+//@           (*s.pendingFrames[old(len(s.pendingFrames))])[2 + k] == old(payload[k]))
+
+//@ func fnparam:(*Stream).*.controlCallback
+//@   trusted
+
+// The control-frame transition table of RFC 6455 (sections 5.5, 7), one step.
+//@ func (*Stream).handleControlFrame
+//@   prop C08, C15
+//@   requires qInv(s) && len(f) >= 2 && frameWF(f) && (s.state == StateActive || s.state == StateClosedByUs)
+//@   let op   = f[0] & 15
+//@   let fin  = f[0] & 128 != 0
+//@   let big  = declLen(f) > 125
+//@   let plen = declLen(f)
+//@   let n0   = len(s.pendingFrames)
+//@   // violations: fragmented or oversized control frame
+//@   ensures [fragmented] !fin ==> err == ErrInvalidControlFrame
+//@   ensures [too-big] fin && big ==> err == ErrControlFrameTooBig
+//@   ensures [violation-queues-nothing] err != nil ==> len(s.pendingFrames) == n0 && s.state == old(s.state)
+//@   // Ping while open: exactly one Pong, same payload length, queued after everything already queued
+//@   let isPing = fin && !big && op == 9 && old(s.state) == StateActive
+//@   ensures [ping] isPing ==> err == nil && s.state == StateActive && len(s.pendingFrames) == n0 + 1
+//@   ensures [ping-pong] isPing ==> (*s.pendingFrames[n0])[0] == 138
+//@   ensures [ping-len] isPing ==> int((*s.pendingFrames[n0])[1] & 127) == plen
+//@   ensures [ping-wire] isPing ==> wireFrame(s, s.pendingFrames[n0])
+//@   ensures [ping-while-closing] fin && !big && op == 9 && old(s.state) != StateActive ==> err == nil && len(s.pendingFrames) == n0 && s.state == old(s.state)
+//@   // Pongs are not answered
+//@   ensures [pong] fin && !big && op == 10 ==> err == nil && len(s.pendingFrames) == n0 && s.state == old(s.state)
+//@   // Close from the peer while open: exactly one Close in reply, reads end
+//@   ensures [close] fin && !big && op == 8 && old(s.state) == StateActive ==> err == nil && s.state == StateClosedByPeer &&
+//@           len(s.pendingFrames) == n0 + 1 && (*s.pendingFrames[n0])[0] == 136 && wireFrame(s, s.pendingFrames[n0])
+//@   ensures [close-no-payload] fin && op == 8 && plen == 0 && old(s.state) == StateActive ==>
+//@           int((*s.pendingFrames[n0])[1] & 127) == 2
+//@   // Close answering ours: the handshake is complete, nothing more is sent
+//@   ensures [close-ack] fin && !big && op == 8 && old(s.state) == StateClosedByUs ==> err == nil && s.state == StateCloseAcked && len(s.pendingFrames) == n0
+//@   ensures [order] forall j :: 0 <= j && j < n0 ==> s.pendingFrames[j] == old(s.pendingFrames[j])
+//@   ensures [inv] qInv(s)
